@@ -1060,6 +1060,11 @@ def expr_fn(
             if isinstance(ret2, str):
                 return ret2
             ret = fn(ret, ret2)
+            if isinstance(ret, str):
+                # An operator reported an error ("Divide by zero"); do not
+                # feed the message to the next operator ("1/0*2 e 9" would
+                # repeat the string two billion times)
+                return ret
         unget_token(tok)
         return ret
 
